@@ -697,3 +697,30 @@ func callNamed(names ...string) func(*ssa.Call) bool {
 func sameCall(want *ssa.Call) func(*ssa.Call) bool {
 	return func(c *ssa.Call) bool { return c == want }
 }
+
+// sameExpr: structural equality of side-effect-free address/load expressions (go/ssa does no CSE,
+// so `s[i]` evaluated twice yields two distinct loads).
+func sameExpr(a, b ssa.Value) bool {
+	a, b = stripConv(a), stripConv(b)
+	if a == b {
+		return true
+	}
+	switch x := a.(type) {
+	case *ssa.UnOp:
+		y, ok := b.(*ssa.UnOp)
+		return ok && x.Op == y.Op && sameExpr(x.X, y.X)
+	case *ssa.IndexAddr:
+		y, ok := b.(*ssa.IndexAddr)
+		return ok && sameExpr(x.X, y.X) && sameExpr(x.Index, y.Index)
+	case *ssa.FieldAddr:
+		y, ok := b.(*ssa.FieldAddr)
+		return ok && x.Field == y.Field && sameExpr(x.X, y.X)
+	case *ssa.Field:
+		y, ok := b.(*ssa.Field)
+		return ok && x.Field == y.Field && sameExpr(x.X, y.X)
+	case *ssa.Const:
+		y, ok := b.(*ssa.Const)
+		return ok && x.Value != nil && y.Value != nil && x.Value.ExactString() == y.Value.ExactString()
+	}
+	return false
+}
